@@ -516,6 +516,9 @@ type FuncContract struct {
 	Havoc     []string
 	Witness   []SExpr // candidate witness expressions for existential clauses
 	Extern    string  // package path for package-scoped extern contracts
+	Bounded   []Clause // bounding assumptions for "bounded-" ensures
+	BoundedOnly bool
+	BoundN    int // loop unroll bound of the bounded run (default 4)
 }
 
 type LetSpec struct {
@@ -572,7 +575,7 @@ var clauseKeywords = map[string]bool{
 	"requires": true, "ensures": true, "assigns": true, "loop": true, "inline": true,
 	"invariant": true, "guarded_by": true, "opaque": true, "trusted": true, "may_panic": true,
 	"wire": true, "noverify": true, "sort": true, "note": true, "let": true, "import": true,
-	"pure": true, "callassert": true, "havoc": true, "witness": true, "ghost": true, "extern": true,
+	"pure": true, "callassert": true, "havoc": true, "witness": true, "ghost": true, "extern": true, "bounded": true, "boundedonly": true,
 }
 
 // extractContractLines pulls the "//@" lines out of a Go source or .spec file
@@ -811,6 +814,18 @@ func (db *ContractDB) parseFile(pkgPath, file, src string) error {
 				}
 				curF.Assigns = append(curF.Assigns, as)
 			}
+		case "bounded":
+			// bounded <expr>: extra entry assumption under which the ensures
+			// clauses labelled "bounded-..." are checked (a bounded stand-in,
+			// reported as such, never counted as proved)
+			if curF == nil {
+				return fail(fmt.Errorf("bounded outside func"))
+			}
+			c, err := parseClause(rest, fmt.Sprintf("b%d", len(curF.Bounded)+1))
+			if err != nil {
+				return fail(err)
+			}
+			curF.Bounded = append(curF.Bounded, c)
 		case "witness":
 			if curF == nil {
 				return fail(fmt.Errorf("witness outside func"))
@@ -837,6 +852,18 @@ func (db *ContractDB) parseFile(pkgPath, file, src string) error {
 		case "pure":
 			if curF != nil {
 				curF.Pure = true
+			}
+		case "boundedonly":
+			// the function is checked only in the bounded run (no loop
+			// invariants; every ensures clause is a bounded stand-in)
+			if curF != nil {
+				curF.BoundedOnly = true
+				if n := 0; rest != "" {
+					fmt.Sscanf(rest, "%d", &n)
+					if n > 0 {
+						curF.BoundN = n
+					}
+				}
 			}
 		case "noverify":
 			if curF != nil {
